@@ -96,7 +96,10 @@ TrSilent == /\ \/ \E h \in Handlers : HandlerStep(h) \/ AggTick(h)
                \/ \E p \in Publishers : UpdIntent(p) \/ (pc[p] = "updated" /\ FreeRunning /\ Enqueue(p))
             /\ UNCHANGED l
 
-TrNext == TrStart \/ TrCloseRestore \/ TrReset \/ TrRegister \/ TrDeregister \/ TrReplace \/ TrCollect \/ TrObs \/ TrUpd \/ TrEnq \/ TrSilent
+(* an explicit RestoreTopic on a topic that is live (or closed): nothing changes in model terms *)
+TrRestoreNow == IsEv("RestoreNow") /\ Quiescent /\ UNCHANGED vars
+
+TrNext == TrRestoreNow \/ TrStart \/ TrCloseRestore \/ TrReset \/ TrRegister \/ TrDeregister \/ TrReplace \/ TrCollect \/ TrObs \/ TrUpd \/ TrEnq \/ TrSilent
 TrSpec == TrInit /\ [][TrNext]_tvars
 
 HW == HWMark(l)
